@@ -49,6 +49,11 @@ CHECKS = {
         text="same behaviours as C01 with set_trickery_enabled(False); the relaxed acceptance rule is the property's own statement",
         note="as C01",
         ref="3.6, 3.10, 4 C20"),
+    "C17": dict(
+        technique="TLA+ spec of add_glue_as_needed at probe-point granularity (GlueInstall.tla), TLC exhaustive over thread interleavings x sys.modules histories; simulated behaviours replayed on real threads blocked at guarded yield points, state compared after every action",
+        text="exhaustive: 2 threads x 2 extractions x <= 3 environment actions per attribute vector (own glue, built-in, both, raising, importing, removing); replay: the controller releases exactly the thread TLC scheduled and compares sys.modules, pending table, module attributes, cache, lock, call log; the property is also evaluated on the real state at every extraction return",
+        note="F4 (length-only cache) known finding with an independent history signature; F9 fixed; re-created module objects and re-entrant glue (O3) not modelled",
+        ref="3.4, 4 C17"),
     "C16": dict(
         technique="TLC on ExtractIter with generator-type wrappers (OriginContractX, OutermostIsFirst); origin contract evaluated on every real chain (suspended and running) via API and via the trace spec's verdict; extract_outermost vs extract on given tables",
         text="origin contract and extract_outermost == first frame hold for all tables in the bound on the model (with the F5 excuse named), for every chain of the C03 space on 3.9-3.12 including running carriers, and for thousands of synthetic table sets",
